@@ -3,7 +3,7 @@
    the four codes) and Proofs/Address.v (lifting to address strings). *)
 From Coq Require Import List NArith Bool Lia.
 From Coq.Strings Require Import Byte.
-From EV Require Import Base.Bytes Gen.Tables Model.Bech32 Model.Base58 Model.Address Proofs.Bech32 Proofs.Bech32Codes Proofs.Address.
+From EV Require Import Base.Bytes Gen.Tables Model.Bech32 Model.Base58 Model.Address Proofs.Bech32 Proofs.Bech32Codes Proofs.Address Proofs.AddressB58.
 Import ListNotations.
 Open Scope N_scope.
 
@@ -57,6 +57,13 @@ Theorem C17_address_other_network_partial : forall (H : bytes -> bytes) (pk_vali
   In p builtin -> parse_with_params H pk_valid s p = AOk a -> is_segwit a -> data_edit s s' ->
   forall p', In p' builtin -> (exists e, parse_with_params H pk_valid s' p' = AErr e) \/ (exists d, b58_decode_check H s' = Ok58 d).
 Proof. intros H pkv p s a s' Ip E SW ED. exact (proj2 (proj2 (address_corrupt H pkv p s a s' Ip E SW ED))). Qed.
+(* ... and that residual disjunct is in fact impossible (added with C06's first-character sweep, Proofs/AddressB58.v): the corrupted text keeps
+   its HRP, and a text that base58check-decodes to a version byte of a built-in network with the length from_base58 demands never has a
+   built-in HRP as its prefix.  So s' is rejected under EVERY built-in network, for every hash function. *)
+Theorem C17_address_every_network : forall (H : bytes -> bytes) (pk_valid : bytes -> bool) p s a s',
+  In p builtin -> parse_with_params H pk_valid s p = AOk a -> is_segwit a -> data_edit s s' ->
+  forall p', In p' builtin -> exists e, parse_with_params H pk_valid s' p' = AErr e.
+Proof. exact address_corrupt_every_network. Qed.
 (* a segwit address accepted by FromStr is accepted by parse_with_params of one built-in network, so C17_address applies to it *)
 Theorem C17_from_str_is_builtin : forall (H : bytes -> bytes) (pk_valid : bytes -> bool) s a,
   from_str H pk_valid s = AOk a -> is_segwit a -> exists p, In p builtin /\ parse_with_params H pk_valid s p = AOk a.
@@ -102,4 +109,5 @@ Print Assumptions C17_switch.
 Print Assumptions C17_addr_len.
 Print Assumptions C17_address.
 Print Assumptions C17_address_other_network_partial.
+Print Assumptions C17_address_every_network.
 Print Assumptions C17_from_str_is_builtin.
